@@ -5,10 +5,12 @@
 -/
 import Gleece.Driver.Common
 import Gleece.Driver.Paths
+import Gleece.Driver.Graph
 open Lean Gleece.Driver
 
 def handlers : List (String × Handler) := [
-  ("paths", pathsHandler)
+  ("paths", pathsHandler),
+  ("graph", graphHandler)
 ]
 
 def processLine (line : String) (implLine : Option String) : Json :=
